@@ -9,6 +9,8 @@
 (*   "pos"  all regions (incl. 6 mixed / nested shape groups) x a 13 x 13 probe grid *)
 (*   "tv"   all time intervals on 0..6, all velocity intervals on -1..3, combos      *)
 (*   "mix"  64 goal states with several constraints x 64 probes; + second goal state*)
+(*   "cls"  13 goals on heading / speed x 144 states of 9 state classes by stored    *)
+(*          attributes (KS, ST, ExtendedPM, MB, Initial, custom; PM, custom vx/vy)      *)
 (*   "file" 4 lanelet-referenced goal regions written to a file and read back; the  *)
 (*          scenario and / or the planning problem set are moved (4 motions x 4 orders) *)
 (*   "movp" / "movo"  goals that are MOVED (translate_rotate by an integer translation *)
@@ -145,7 +147,20 @@ FileProbes(m) == FileBase \o [i \in DOMAIN FileBase |-> MoveState(FileBase[i], m
 FileTrajs(m)  == [j \in 1..4 |-> LET k == <<10, 12, 28, 30>>[j] IN                    \* walks along +x through the lanelets
                                   [i \in 1..3 |-> WithT(MoveState(FileBase[k + 2 * (i - 1)], m), 1 + i)]]
 
-Classes == {"ori", "pos", "tv", "mix", "file"} \cup MovClasses
+(* ---- state classes by attribute combination ---- *)
+ClsTags == <<"KSState", "STState", "ExtendedPMState", "MBState", "InitialState", "CustomOV", "CustomOVV", "PMState", "CustomVV">>
+ClsThs  == <<-9, -6, -2, 0, 2, 6, 9, 12>>                         \* headings incl. +-pi/2 and others with sin # 0
+ClsVecs == <<<<-1, -1>>, <<0, -2>>, <<2, -2>>, <<1, 0>>, <<2, 2>>, <<0, 2>>, <<-1, 1>>, <<-2, 0>>>>     \* the same headings as (vx, vy)
+ClsProbes == [i \in 1..(9 * 8 * 2) |->
+                LET j == i - 1  tag == ClsTags[(j % 9) + 1]  h == ((j \div 9) % 8) + 1  w == j \div 72 IN     \* w: second variant
+                IF tag \in PmClasses THEN PMC(tag, 3, <<0, 0>>, (1 + w) * ClsVecs[h][1], (1 + w) * ClsVecs[h][2])
+                ELSE KSC(tag, 3, <<0, 0>>, ClsThs[h], 1 + w, IF tag \in {"MBState", "CustomOVV"} THEN 1 + 2 * w ELSE 0)]
+ClsGoals == {GS(FullT, NoC, o, NoC) : o \in {Ang(-3, 3), Ang(5, 7), Ang(2, 4), Ang(9, 15), Ang(-20, -2), Ang(6, 6), Ang(-7, -5)}}
+            \cup {GS(FullT, NoC, NoC, v) : v \in {Iv(1, 1), Iv(2, 2), Iv(2, 3), Iv(0, 1)}}
+            \cup {GS(FullT, NoC, Ang(3, 9), Iv(2, 2)), GS(Iv(2, 4), Rect(<<-1, -1, 1, 1>>), Ang(-9, -2), Iv(1, 2))}
+ClsTrajs == [c \in 1..9 |-> [i \in 1..3 |-> WithT(ClsProbes[c + 9 * <<5, 3, 12>>[i]], i)]]     \* one per class: headings 6, 0, 2
+
+Classes == {"ori", "pos", "tv", "mix", "file", "cls"} \cup MovClasses
 Goals1(c) == CASE c = "ori" -> {GS(FullT, NoC, o, NoC) : o \in OriAll}
                [] c = "pos" -> {GS(FullT, p, NoC, NoC) : p \in Regions}
                [] c = "tv"  -> {GS(t, NoC, NoC, NoC) : t \in TimeAll} \cup {GS(FullT, NoC, NoC, v) : v \in VelAll}
@@ -154,8 +169,9 @@ Goals1(c) == CASE c = "ori" -> {GS(FullT, NoC, o, NoC) : o \in OriAll}
                [] c = "movp" -> MovPGoals
                [] c = "movo" -> MovOGoals
                [] c = "file" -> {}                        \* file goals are whole regions: see Init
+               [] c = "cls" -> ClsGoals
 Probes(c) == CASE c = "ori" -> OriProbes [] c = "pos" -> PosProbes [] c = "tv" -> TVProbes [] c = "mix" -> MixProbes
-               [] c = "movp" -> MovPBase [] c = "movo" -> OriProbes [] c = "file" -> FileBase
+               [] c = "movp" -> MovPBase [] c = "movo" -> OriProbes [] c = "file" -> FileBase [] c = "cls" -> ClsProbes
 
 VARIABLES cls, goal, s
 vars == <<cls, goal, s>>
@@ -179,6 +195,8 @@ LawClosedForm   == \A i \in DOMAIN goal : goal[i].ori.k = "ang" =>
                       LawAngleClosed(goal[i].ori.a, goal[i].ori.b, Theta(s)) /\ LawAngleTurn(goal[i].ori.a, goal[i].ori.b, Theta(s))
 LawBands        == LawBandOnlyOnEnds(goal, s)
 LawCompass      == LawHeading
+LawStored       == cls = "cls" => /\ LawStoredOrientation(goal, s)
+                                  /\ StoresVy(s) => (Sat("time", goal[1], s) # "EITHER" /\ Sat("position", goal[1], s) # "EITHER")
 LawGroups       == \A i \in DOMAIN goal : LawFlatten(goal[i].pos, s.p) /\ LawGroupKind(goal[i].pos, s.p)
 LawDecider      == Decider(goal, s) \in Attrs \cup {""}
 LawTraj         == (cls = "mix" /\ s = MixProbes[1]) =>
@@ -209,7 +227,7 @@ MovBands == Cardinality(UNION {LET mp == MovedProbes(cls, Moves(cls)[k]) IN
                                : k \in DOMAIN Moves(cls)})
 Emit == PrintT(<<"CASE", ToJson([cls |-> cls, goal |-> goal,
                                  states |-> IF IsMov THEN <<Probes(cls)[1]>> ELSE IF IsFile THEN <<>> ELSE Probes(cls),
-                                 trajs |-> IF cls = "mix" THEN MixTrajs ELSE IF cls = "pos" THEN PosTrajs ELSE <<>>,
+                                 trajs |-> IF cls = "mix" THEN MixTrajs ELSE IF cls = "pos" THEN PosTrajs ELSE IF cls = "cls" THEN ClsTrajs ELSE <<>>,
                                  moves   |-> IF IsMov THEN Moves(cls) ELSE <<>>,
                                  mstates |-> IF IsMov THEN [k \in DOMAIN Moves(cls) |-> MovedProbes(cls, Moves(cls)[k])] ELSE <<>>,
                                  mtrajs  |-> IF IsMov THEN [k \in DOMAIN Moves(cls) |-> MovTrajs(cls, Moves(cls)[k])] ELSE <<>>,
